@@ -1,4 +1,4 @@
-import FatVerif.Proofs.DirWriteSim14
+import FatVerif.Proofs.DirWriteSim36
 /-! # C01 (simulation) — the effectful directory READER is the pure reader on the bytes of the image
 
 The directory code of the model (`Model/DirOps.lean`, programs over a device) and the slot-list algebra
@@ -554,6 +554,89 @@ theorem createFile_chain_sim {d : Dev} {c0 : Nat} {chain : List Nat} (h : ChainR
   refine ⟨d', e, hr, he1, he2, ?_, hd, hinv'.wf, ChainReadable.of_inv hinv'⟩
   rw [chainSlots_of_inv hinv', hsl, hsl0]
 
+/-! ## a whole operation: `remove(name)` of a file in the fixed root directory -/
+
+open FatVerif.FileSim FatVerif.Fat in
+/-- **`remove_sim`, a file in the fixed root** (single-component path): `find_entry` finds the listed entry `le` (a
+    file), `free_cluster_chain` releases its chain `cs` in the FAT (every copy; `tabView` becomes `freedView … cs`;
+    agent-fat's `run_freeClusterChain_any`), `deleteEntry` marks its slots deleted. Hypotheses besides `RootReadable`:
+    well-formed image, layout `Geo`, FS-info cache consistent (`InfoOk`), the FAT copies end before the root region,
+    and `cs` is the duplicate-free chain of the entry's first cluster inside the table (`[]` if it has none) -/
+theorem remove_root_file_sim {d : Dev} {N : Nat} (h : RootReadable d N) (hwf : d.img.WF)
+    (hB : 0x42 ≤ (rootSliceOf d.fs).beginOff) (hgeo : Geo d.fs d.img.size) (hinfo : InfoOk d.fs d.img)
+    (hout : (fatSliceOf d.fs).beginOff + (fatSliceOf d.fs).mirrors * (fatSliceOf d.fs).size ≤ (rootSliceOf d.fs).beginOff)
+    (env : Env) (path name : String) (hsp : Names.splitPath path = (name, none))
+    (hdot : (name = "." || name = "..") = false) (le : LfnEntry)
+    (hl : lookupL env.upper name.toList none (readDirEntries d.fs.lfnAlloc true (rootDirSlots d.fs d.img)) = .ok le)
+    (hfile : Lfn.isDir le.sfn = false) (cs : List Nat)
+    (hcs : match (toDirEntry (rootSliceOf d.fs).beginOff le).firstCluster d.fs with
+      | some n => Chain (tabView d.fs d.img) n cs ∧ cs.Nodup ∧
+          ∀ x ∈ cs, 2 ≤ x ∧ x < d.fs.totalClusters + 2 ∧ tabView d.fs d.img x ≠ .free
+      | none => cs = []) (fuel : Nat) :
+    ∃ d', run (remove env (fuel + 1) (rootAt d.fs 0) path) d = (.ok (), d') ∧
+      rootDirSlots d'.fs d'.img = DirSlots.deleteRange (rootDirSlots d.fs d.img) le.beginIdx le.endIdx ∧
+      tabView d'.fs d'.img = freedView (tabView d.fs d.img) cs ∧
+      d'.fs.curDirty = true ∧ d'.img.WF ∧ RootReadable d' N := by
+  obtain ⟨d', hr, hs, hd, hsl, htv, _⟩ := root_remove_file (rootSliceOf d.fs) N h.slots rfl rfl hB env path name hsp hdot d
+    h.noFault h.inside hwf h.fuel hgeo hinfo hout le hl hfile cs hcs fuel
+  refine ⟨d', hr, ?_, htv, hd, hs.wf hwf, h.of_volStep hs⟩
+  unfold rootDirSlots
+  rw [rootSliceOf_geomEq hs.geom, hsl]
+
+/-! ## WRITES, fourth step: GROWTH of a cluster-chain directory by one cluster
+
+When the new entry does not fit into the allocated clusters of the directory but fits after one more, `File::write` at
+the end of the chain allocates a cluster (`alloc_cluster(Some(last), zero = true)`: agent-fat's
+`run_allocClusterFs_any`), links it behind the last cluster of the chain, zero-fills it and continues there
+(Proofs/DirWriteSim17–21). -/
+
+open FatVerif.FileSim FatVerif.Fat in
+/-- **`writeEntry_sim` with growth, cluster chain without an entry** (the root of FAT32): `c` is the cluster the
+    allocator finds (`allocFindV` on the decoded FAT of the image and the FS-info hint), `last` the last cluster of
+    the chain (not free). Afterwards the directory has the chain `chain ++ [c]`, the FAT of the image is
+    `allocLinkV … (some last) c` (part of `ChainReadable` of the new device through its `Chain`), and its slots are
+    `DirSlots.writeEntry` of the old ones followed by the zero slots that remain in the new cluster -/
+theorem writeEntry_chain_grow_sim {d : Dev} {c0 : Nat} {chain : List Nat} (h : ChainReadable d c0 none chain)
+    (hwf : d.img.WF) (hinfo : InfoOk d.fs d.img) (c last : Nat) (hlast : chain.getLast? = some last)
+    (hlv : tabView d.fs d.img last ≠ .free)
+    (hfind : allocFindV (tabView d.fs d.img) d.fs.fsInfo.next d.fs.totalClusters = some c)
+    (hu32 : (chain.length + 1) * d.fs.clusterSize < 4294967296)
+    (hfuel' : (chain.length + 1) * (d.fs.clusterSize / 32) < dirFuel d.fs)
+    (name : String) (raw : DirFileEntryData) (hval : Names.validateLongName name = .ok ())
+    (hdot : (name = "." || name = "..") = false) (hraw : raw.WF) (hlfn : attrsIsLfn raw.attrs = false)
+    (hgrow : chain.length * (d.fs.clusterSize / 32) <
+      DirSlots.findFree (chainSlots d.fs d.img chain) (Lfn.numParts (Names.encodeUtf16 name.toList).length + 1) +
+        (Lfn.numParts (Names.encodeUtf16 name.toList).length + 1))
+    (hfit : DirSlots.findFree (chainSlots d.fs d.img chain) (Lfn.numParts (Names.encodeUtf16 name.toList).length + 1) +
+        (Lfn.numParts (Names.encodeUtf16 name.toList).length + 1) ≤
+      chain.length * (d.fs.clusterSize / 32) + d.fs.clusterSize / 32) :
+    ∃ (d' : Dev) (e : DirEntry), run (writeEntry (.file (FileH.new (some c0) none)) name raw) d = (.ok e, d') ∧
+      e.data = raw ∧ e.lfn = Names.encodeUtf16 name.toList ∧
+      chainSlots d'.fs d'.img (chain ++ [c]) =
+        DirSlots.writeEntry (chainSlots d.fs d.img chain) (Names.encodeUtf16 name.toList) raw.serialize ++
+          List.replicate (chain.length * (d.fs.clusterSize / 32) + d.fs.clusterSize / 32 -
+            (DirSlots.findFree (chainSlots d.fs d.img chain) (Lfn.numParts (Names.encodeUtf16 name.toList).length + 1) +
+              (Lfn.numParts (Names.encodeUtf16 name.toList).length + 1))) DirSlots.zeroSlot ∧
+      d'.fs.curDirty = true ∧ d'.img.WF ∧ ChainReadable d' c0 none (chain ++ [c]) := by
+  have hinv := h.inv hwf
+  have hsl0 := chainSlots_of_inv hinv
+  rw [hsl0] at hgrow hfit
+  obtain ⟨d', e, hr, he, _, hd, hinv', hsl, _⟩ := chain_writeEntry_grow (fs0 := d.fs) (f0 := FileH.new (some c0) none)
+    (c0 := c0) (chain := chain) rfl c last name raw hval hdot hraw hlfn d hinv hinfo hlast hlv hfind hu32 hfuel' hgrow hfit
+  have hdata : e.data = raw := by
+    rw [he]
+    have := writeEntry_result (chainSrc d.fs (chain ++ [c])) raw hraw hlfn (Names.encodeUtf16 name.toList) 0 1 (by omega)
+    simp only [toDirEntryS] at this ⊢
+    injection this with h1
+    exact h1.symm
+  refine ⟨d', e, hr, hdata, by rw [he]; rfl, ?_, hd, hinv'.wf, ChainReadable.of_inv hinv'⟩
+  rw [chainSlots_of_inv hinv', hsl0]
+  have hNK : (chain ++ [c]).length * (d.fs.clusterSize / 32) =
+      chain.length * (d.fs.clusterSize / 32) + d.fs.clusterSize / 32 := by
+    rw [List.length_append, List.length_singleton, Nat.add_mul, Nat.one_mul]
+  rw [hNK]
+  exact hsl
+
 /-! ## carrying the OTHER directories over a write
 
 After a write into one directory (`VolStep d d'` + the frame `FrameOutG`), every other directory is readable on the new
@@ -769,5 +852,500 @@ example : ∃ d', run (deleteEntry (.file (FileH.new (some 2) none))
 
 example : (DirSlots.listing (DirSlots.deleteRange (chainSlots Ex5.dev.fs Ex5.dev.img [2, 3]) 0 1)).map (·.units) =
     [Names.encodeUtf16 "Hello.txt".toList] := by decide +kernel
+
+/-! ## WRITES: `create_dir` as a whole operation (Proofs/DirWriteSim25–29)
+
+`create_dir(name)` (single-component path, free name): `check_for_existence` chooses the alias, `alloc_cluster(None, true)`
+takes the cluster `c` the allocator finds and zero-fills it (agent-fat's `run_allocClusterFs_any`), the parent gets the
+entry (`write_entry`, inside its allocated slots), the new directory gets `.` and `..` through its own handle (whose
+clones, when dropped, write the unchanged stamped entry back to the parent's slot). Generic statement for every writable
+directory: `WView.createDir_sim`; here the instance for the fixed root as parent. -/
+
+open FatVerif.FileSim FatVerif.Fat in
+/-- **`createDir_sim`, fixed root as parent**: afterwards the root slots are `DirSlots.writeEntry` of those before (short
+    record: alias, attribute `DIRECTORY`, first cluster `c`, stamps from the clock), the decoded FAT has `c ↦ EOC`, the
+    slots of cluster `c` are the `.` entry (first cluster `c`), the `..` entry (no cluster: the parent is the root) and
+    zero slots, and the returned handle is a readable one-cluster directory -/
+theorem createDir_root_sim {d : Dev} {N : Nat} (h : RootReadable d N) (hwf : d.img.WF)
+    (hB : 0x42 ≤ (rootSliceOf d.fs).beginOff) (hgeo : Geo d.fs d.img.size) (hinfo : InfoOk d.fs d.img)
+    (hout : (fatSliceOf d.fs).beginOff + (fatSliceOf d.fs).mirrors * (fatSliceOf d.fs).size ≤ (rootSliceOf d.fs).beginOff)
+    (hend : (rootSliceOf d.fs).beginOff + (rootSliceOf d.fs).size ≤ d.fs.firstDataSector * d.fs.bps)
+    (ha : d.fs.lfnAlloc = true) (hacc : d.fs.accDate = false) (hcs32 : d.fs.clusterSize % 32 = 0)
+    (hcs64 : 64 ≤ d.fs.clusterSize) (hu32 : d.fs.clusterSize < 4294967296)
+    (hfuelN : d.fs.clusterSize / 32 < dirFuel d.fs) (env : Env) (path name : String)
+    (hsp : Names.splitPath path = (name, none)) (hdot : (name = "." || name = "..") = false)
+    (hval : Names.validateLongName name = .ok ()) (a : List Nat)
+    (hchk : DirAlias.checkForExistenceL env.upper (rootDirSlots d.fs d.img) name (some true) 70000 = .ok (.alias a))
+    (c : Nat) (hfind : allocFindV (tabView d.fs d.img) d.fs.fsInfo.next d.fs.totalClusters = some c)
+    (hfit : DirSlots.findFree (rootDirSlots d.fs d.img) (Lfn.numParts (Names.encodeUtf16 name.toList).length + 1) +
+      (Lfn.numParts (Names.encodeUtf16 name.toList).length + 1) ≤ N) (fuel : Nat) :
+    ∃ (d' : Dev) (ed0 : DirEntryEditor),
+      run (createDir env (fuel + 1) (rootAt d.fs 0) path) d = (.ok (.file (FileH.new (some c) (some ed0))), d') ∧
+      ed0.data = sfnAt d.fs d.clock a 16 (some c) ∧
+      rootDirSlots d'.fs d'.img = DirSlots.writeEntry (rootDirSlots d.fs d.img) (Names.encodeUtf16 name.toList)
+        (DirAlias.sfnWith a (16 :: sfnStamp d.fs d.clock (some c))) ∧
+      tabView d'.fs d'.img = updV (tabView d.fs d.img) c .eoc ∧
+      chainSlots d'.fs d'.img [c] =
+        DirAlias.sfnWith (46 :: List.replicate 10 32) (16 :: sfnStamp d.fs d.clock (some c)) ::
+        DirAlias.sfnWith (46 :: 46 :: List.replicate 9 32) (16 :: sfnStamp d.fs d.clock none) ::
+        List.replicate (d.fs.clusterSize / 32 - 2) (List.replicate 32 0) ∧
+      ChainReadable d' c (some ed0) [c] ∧ d'.fs.curDirty = true ∧ d'.img.WF ∧ RootReadable d' N := by
+  obtain ⟨V, hN, hsrc, hEx, hInv⟩ : ∃ V : WView d (rootAt d.fs 0), V.N = N ∧
+      V.src = (fun o => (rootSliceOf d.fs).beginOff + o) ∧ V.Extra = (fun _ => False) ∧
+      V.Inv = RootInv d.fs (rootSliceOf d.fs) N :=
+    ⟨WView.ofRoot (rootSliceOf d.fs) N h.slots rfl rfl hB d h.noFault h.inside hwf h.fuel, rfl, rfl, rfl, rfl⟩
+  have hsl : V.slots d.img = rootDirSlots d.fs d.img := by
+    unfold WView.slots; rw [hN, hsrc]; exact srcSlots_root h
+  have h0 : RootInv d.fs (rootSliceOf d.fs) N d := ⟨h.noFault, h.inside, hwf, FsGeomEq.refl _, h.fuel⟩
+  have hsz := h.slots
+  have hin := h.inside
+  obtain ⟨d', hr, hs, hd, _, hsl', htv, hnew, hC, _⟩ := V.createDir_sim env path name hsp hdot hval ha hgeo hinfo hacc hcs32
+    hcs64 hu32 hfuelN a (by rw [hsl]; exact hchk) c hfind (by rw [hsl, hN]; exact hfit)
+    (fun d1 d2 hv _ hal => by rw [hInv]; exact h0.of_alloc hv hal)
+    (fun d1 d2 hi hs _ _ => by rw [hInv] at hi ⊢; exact hi.of_volStep hs)
+    (fun i hi => by
+      rw [hN] at hi
+      rw [hsrc]
+      have := clusterOff_ge d.fs c
+      exact ⟨by show _ ≤ _ + 32 * i; omega, by show _ + 32 * i + 32 ≤ _; omega,
+        Or.inl (by show _ + 32 * i + 32 ≤ _; omega)⟩)
+    (fun q hq => by rw [hEx] at hq; exact hq.elim) fuel
+  have hroot' := h.of_volStep hs
+  have hdd : (if (rootAt d.fs 0).isRootDir then none else (rootAt d.fs 0).firstCluster) = none := rfl
+  rw [hdd] at hnew
+  refine ⟨d', _, hr, rfl, ?_, htv, ?_, ⟨hC, ?_⟩, hd, hs.wf hwf, hroot'⟩
+  · rw [← hsl, ← hsl', ← srcSlots_root hroot', rootSliceOf_geomEq hs.geom]
+    unfold WView.slots; rw [hN, hsrc]
+  · rw [← hnew, ← srcSlots_chain d'.fs d'.img hC.geo.cs_pos hC.cs32 [c], chainSrc_geom hs.geom, hs.geom.clusterSize,
+      List.length_singleton, Nat.one_mul]
+  · rw [List.length_singleton, Nat.one_mul, hs.geom.clusterSize, dirFuel_geomEq hs.geom]; exact hfuelN
+
+/-! ## non-vacuity: `create_dir("New dir")` in the root directory of `Ex4` -/
+
+open FatVerif.FileSim FatVerif.Fat in
+theorem Ex4.geo : Geo Ex4.dev.fs Ex4.dev.img.size :=
+  ⟨by decide, by decide, by decide, by decide, by decide, by decide, by decide, by decide, by decide, by decide, by decide⟩
+
+open FatVerif.FileSim FatVerif.Fat in
+/-- all hypotheses of `createDir_root_sim` hold of `Ex4.dev` and the name "New dir": alias `NEWDIR~1`, the allocator finds
+    cluster 2 (the FAT is empty), the entry (2 slots) goes to slots 3–4; hence the run succeeds and returns the directory
+    of cluster 2, whose chain in the FAT of the image afterwards is `[2]` -/
+example : ∃ (d' : Dev) (ed0 : DirEntryEditor),
+    run (createDir Ex3.env 1 (rootAt Ex4.dev.fs 0) "New dir") Ex4.dev = (.ok (.file (FileH.new (some 2) (some ed0))), d') ∧
+    rootDirSlots d'.fs d'.img = DirSlots.writeEntry (rootDirSlots Ex4.dev.fs Ex4.dev.img)
+      (Names.encodeUtf16 "New dir".toList)
+      (DirAlias.sfnWith [78, 69, 87, 68, 73, 82, 126, 49, 32, 32, 32] (16 :: sfnStamp Ex4.dev.fs Ex4.dev.clock (some 2))) ∧
+    tabView d'.fs d'.img 2 = .eoc ∧ ChainReadable d' 2 (some ed0) [2] ∧
+    (chainSlots d'.fs d'.img [2]).length = 16 := by
+  obtain ⟨d', ed0, hr, _, hsl, htv, hnew, hC, _⟩ := createDir_root_sim Ex4.readable Ex4.wf (by decide) Ex4.geo
+    ⟨fun n hn => (by cases hn), fun n hn => (by cases hn)⟩ (by decide) (by decide) rfl rfl (by decide) (by decide) (by decide)
+    (by decide) Ex3.env "New dir" "New dir" (by decide +kernel) (by decide) (by decide +kernel)
+    [78, 69, 87, 68, 73, 82, 126, 49, 32, 32, 32] (by decide +kernel) 2 (by decide +kernel) (by decide +kernel) 0
+  refine ⟨d', ed0, hr, hsl, by rw [htv]; rfl, hC, ?_⟩
+  rw [hnew]
+  decide
+
+/-- the listing the theorem predicts for the root afterwards: "Hello.txt", "B", and the new directory "New dir" -/
+example : (DirSlots.listing (DirSlots.writeEntry (rootDirSlots Ex4.dev.fs Ex4.dev.img)
+      (Names.encodeUtf16 "New dir".toList)
+      (DirAlias.sfnWith [78, 69, 87, 68, 73, 82, 126, 49, 32, 32, 32] (16 :: sfnStamp Ex4.dev.fs Ex4.dev.clock (some 2))))).map
+        (fun e => (e.units, Lfn.isDir e.sfn)) =
+    [(Names.encodeUtf16 "Hello.txt".toList, false), ([], true), (Names.encodeUtf16 "New dir".toList, true)] := by
+  decide +kernel
+
+/-! ## WRITES: `remove` of an empty directory (Proofs/DirWriteSim30)
+
+`remove(name)` where `name` is a directory: `find_entry`, `to_dir`, `is_empty` (the listing of the directory through its
+own stream: only `.` and `..`), `free_cluster_chain` of its chain, `deleteEntry` of its slots in the parent. Generic:
+`WView.remove_dir_sim` (+ `DirView.isEmpty_sim`); here the fixed root as parent. -/
+
+open FatVerif.FileSim FatVerif.Fat in
+/-- **`remove_sim`, an empty sub-directory of the fixed root**: `le` is the listed entry found (a directory with first
+    cluster `c0`), `chain` its cluster chain (readable through the handle `to_dir` opens), whose slots list only dot
+    entries (`emptyD`); afterwards the root slots are `deleteRange`, the FAT is `freedView … chain` -/
+theorem remove_root_dir_sim {d : Dev} {N : Nat} (h : RootReadable d N) (hwf : d.img.WF)
+    (hB : 0x42 ≤ (rootSliceOf d.fs).beginOff) (hgeo : Geo d.fs d.img.size) (hinfo : InfoOk d.fs d.img)
+    (hout : (fatSliceOf d.fs).beginOff + (fatSliceOf d.fs).mirrors * (fatSliceOf d.fs).size ≤ (rootSliceOf d.fs).beginOff)
+    (env : Env) (path name : String) (hsp : Names.splitPath path = (name, none))
+    (hdot : (name = "." || name = "..") = false) (le : LfnEntry)
+    (hl : lookupL env.upper name.toList none (readDirEntries d.fs.lfnAlloc true (rootDirSlots d.fs d.img)) = .ok le)
+    (hdir : Lfn.isDir le.sfn = true) (c0 : Nat)
+    (hfc : (toDirEntryS (fun o => (rootSliceOf d.fs).beginOff + o) le).firstCluster d.fs = some c0) (chain : List Nat)
+    (hsub : ChainReadable d c0 (some (toDirEntryS (fun o => (rootSliceOf d.fs).beginOff + o) le).editor) chain)
+    (hemp : emptyD ((readDirEntries d.fs.lfnAlloc true (chainSlots d.fs d.img chain)).map
+      (toDirEntryS (chainSrc d.fs chain))) = true)
+    (hnf : ∀ x ∈ chain, tabView d.fs d.img x ≠ .free) (fuel : Nat) :
+    ∃ d', run (remove env (fuel + 1) (rootAt d.fs 0) path) d = (.ok (), d') ∧
+      rootDirSlots d'.fs d'.img = DirSlots.deleteRange (rootDirSlots d.fs d.img) le.beginIdx le.endIdx ∧
+      tabView d'.fs d'.img = freedView (tabView d.fs d.img) chain ∧
+      d'.fs.curDirty = true ∧ d'.img.WF ∧ RootReadable d' N := by
+  obtain ⟨V, hN, hsrc, hEx, hInv⟩ : ∃ V : WView d (rootAt d.fs 0), V.N = N ∧
+      V.src = (fun o => (rootSliceOf d.fs).beginOff + o) ∧ V.Extra = (fun _ => False) ∧
+      V.Inv = RootInv d.fs (rootSliceOf d.fs) N :=
+    ⟨WView.ofRoot (rootSliceOf d.fs) N h.slots rfl rfl hB d h.noFault h.inside hwf h.fuel, rfl, rfl, rfl, rfl⟩
+  have hsl : V.slots d.img = rootDirSlots d.fs d.img := by
+    unfold WView.slots; rw [hN, hsrc]; exact srcSlots_root h
+  have h0 : RootInv d.fs (rootSliceOf d.fs) N d := ⟨h.noFault, h.inside, hwf, FsGeomEq.refl _, h.fuel⟩
+  have hds : DirEntry.dirStream d.fs (toDirEntryS V.src le) =
+      .file (FileH.new (some c0) (some (toDirEntryS (fun o => (rootSliceOf d.fs).beginOff + o) le).editor)) := by
+    rw [hsrc]; unfold DirEntry.dirStream; rw [hfc]
+  obtain ⟨Vs, hVs⟩ : ∃ Vs : DirView d (DirEntry.dirStream d.fs (toDirEntryS V.src le)), Vs.isEmptyV = true := by
+    rw [hds]
+    refine ⟨DirView.ofChain hsub, ?_⟩
+    unfold DirView.isEmptyV DirView.lfnEntries
+    show emptyD ((readDirEntries d.fs.lfnAlloc true (srcSlots d.img (chainSrc d.fs chain)
+      (chain.length * (d.fs.clusterSize / 32)))).map (toDirEntryS (chainSrc d.fs chain))) = true
+    rw [hsub.slots_eq]; exact hemp
+  obtain ⟨d', hr, hs, hd, _, hsl', dm, htv, hsm, hfr, _⟩ := V.remove_dir_sim env path name hsp hdot hgeo hinfo le
+    (by rw [hsl]; exact hl) hdir Vs hVs chain
+    (by
+      rw [hsrc, hfc]
+      exact ⟨hsub.dir.link, chain_nodup' hsub.dir.link, fun x hx => ⟨(hsub.dir.inTab x hx).1, (hsub.dir.inTab x hx).2, hnf x hx⟩⟩)
+    (fun d1 d2 hv _ hf => by rw [hInv]; exact h0.of_freed hv hf)
+    (fun i hi => by
+      rw [hsrc]
+      exact Or.inr (by show _ ≤ _ + 32 * i; omega)) fuel
+  have hroot' := h.of_volStep hs
+  refine ⟨d', hr, ?_, ?_, hd, hs.wf hwf, hroot'⟩
+  · rw [← hsl, ← hsl', ← srcSlots_root hroot', rootSliceOf_geomEq hs.geom]
+    unfold WView.slots; rw [hN, hsrc]
+  · -- the FAT after `deleteEntry` is the FAT after the release: the root region lies behind the FAT copies
+    have hgm : Geo dm.fs dm.img.size := by rw [hsm.size]; exact hgeo.frame hsm.geom
+    have hms : (fatSliceOf d.fs).size ≤ (fatSliceOf d.fs).mirrors * (fatSliceOf d.fs).size :=
+      Nat.le_mul_of_pos_left _ hgeo.mirrors_pos
+    have hagree : FatAgree dm.fs dm.img d'.img :=
+      fatAgree_of_frameE hfr dm.fs (by rw [hsm.geom.fatSlice]; exact hgeo.status_lt)
+        (fun j _ => by rw [hsm.geom.fatSlice, hsrc]; show _ ≤ _ + 32 * j; omega)
+        (fun q hq => by rw [hEx] at hq; exact hq.elim)
+    have hs2 : FsGeomEq dm.fs d'.fs := by
+      have h1 := hsm.geom
+      have h2 := hs.geom
+      unfold FsGeomEq at *
+      rw [h2, h1]
+    rw [hs2.tabView, tabView_congr hgm hagree, htv]
+
+/-! ## non-vacuity: removing the empty directory `SUB` (cluster 2: `.`, `..`) from the root -/
+
+namespace Ex6
+def dot : DirFileEntryData := (DirFileEntryData.new (46 :: List.replicate 10 32) 0x10).setFirstCluster (some 2) .fat16
+def dotdot : DirFileEntryData := DirFileEntryData.new (46 :: 46 :: List.replicate 9 32) 0x10
+/-- the geometry of `Ex2`; FAT: cluster 2 = end of chain; root: the entry of `SUB` (first cluster 2); cluster 2: the two
+    dot entries, then zeros; filled up to the page size -/
+def bytes : List Nat :=
+  List.replicate 512 0 ++
+  ([0xF8, 0xFF, 0xFF, 0xFF, 0xFF, 0xFF] ++ List.replicate 506 0) ++
+  (Ex3.subData.serialize ++ List.replicate 480 0) ++
+  (dot.serialize ++ dotdot.serialize ++ List.replicate 448 0) ++
+  List.replicate 2048 0
+def dev : Dev := { img := Img.ofBytes bytes 4096, fs := Ex2.fs }
+def sub : LfnEntry := ⟨Ex3.subData.serialize, [], 0, 1⟩
+end Ex6
+
+theorem Ex6.wf : Ex6.dev.img.WF := by
+  intro k p hk
+  simp only [Ex6.dev, Img.ofBytes, Std.HashMap.getElem?_insert] at hk
+  split at hk
+  · cases hk; decide +kernel
+  · simp at hk
+
+theorem Ex6.root : RootReadable Ex6.dev 16 := ⟨rfl, by decide, by decide, by decide⟩
+
+open FatVerif.FileSim FatVerif.Fat in
+theorem Ex6.geo : Geo Ex6.dev.fs Ex6.dev.img.size :=
+  ⟨by decide, by decide, by decide, by decide, by decide, by decide, by decide, by decide, by decide, by decide, by decide⟩
+
+open FatVerif.FileSim FatVerif.Fat in
+theorem Ex6.subReadable : ChainReadable Ex6.dev 2
+    (some (toDirEntryS (fun o => (rootSliceOf Ex6.dev.fs).beginOff + o) Ex6.sub).editor) [2] := by
+  have h2 : tabView Ex6.dev.fs Ex6.dev.img 2 = .eoc := by decide +kernel
+  refine ⟨⟨rfl, Ex6.geo, rfl, ?_, by decide, by decide +kernel, Or.inl rfl, (fun e he => by cases he; rfl), by decide,
+    by decide⟩, by decide⟩
+  exact Chain.last 2 (fun n hn => by rw [h2] at hn; cases hn)
+
+open FatVerif.FileSim FatVerif.Fat in
+/-- all hypotheses of `remove_root_dir_sim` hold of `Ex6.dev` and the name "sub" (found ignoring case): the run succeeds,
+    slot 0 of the root is marked deleted and cluster 2 is free again -/
+example : ∃ d', run (remove Ex3.env 1 (rootAt Ex6.dev.fs 0) "sub") Ex6.dev = (.ok (), d') ∧
+    rootDirSlots d'.fs d'.img = DirSlots.deleteRange (rootDirSlots Ex6.dev.fs Ex6.dev.img) 0 1 ∧
+    tabView d'.fs d'.img 2 = .free ∧ d'.fs.curDirty = true := by
+  obtain ⟨d', hr, hsl, htv, hd, _⟩ := remove_root_dir_sim Ex6.root Ex6.wf (by decide) Ex6.geo
+    ⟨fun n hn => (by cases hn), fun n hn => (by cases hn)⟩ (by decide) Ex3.env "sub" "sub" (by decide +kernel) (by decide)
+    Ex6.sub (by decide +kernel) (by decide +kernel) 2 (by decide +kernel) [2] Ex6.subReadable (by decide +kernel)
+    (fun x hx => by
+      simp only [List.mem_singleton] at hx
+      subst hx
+      have h2 : tabView Ex6.dev.fs Ex6.dev.img 2 = .eoc := by decide +kernel
+      rw [h2]; exact fun h => by cases h) 0
+  refine ⟨d', hr, hsl, ?_, hd⟩
+  rw [htv]
+  simp [freedView]
+
+/-! ## WRITES: `rename` of a file from one directory into another (Proofs/DirWriteSim31)
+
+Generic: `WView.rename_file_across_sim` (source `V1`, destination `V2`; the new entry is written in the destination, then
+the old one deleted in the source; each step stated relative to the device before it, since one directory may hold the
+other's own entry) and `WView.rename_file_apart_sim` (directories that lie apart: both slot lists relative to the start).
+
+Non-vacuity: moving `SUB/Hello.txt` of `Ex3` to the root as `Moved.txt` (the source is a child of the destination). -/
+
+namespace Ex7
+def bytes : List Nat := Ex3.bytes ++ List.replicate (4096 - Ex3.bytes.length) 0
+def dev : Dev := { img := Img.ofBytes bytes 4096, fs := Ex2.fs }
+/-- the listed entry of "Hello.txt" in `SUB`: slots 16–17 (cluster 3) -/
+def hello : LfnEntry := ⟨(DirFileEntryData.new Ex.sfn1 0x20).serialize, Names.encodeUtf16 "Hello.txt".toList, 16, 18⟩
+end Ex7
+
+theorem Ex7.wf : Ex7.dev.img.WF := by
+  intro k p hk
+  simp only [Ex7.dev, Img.ofBytes, Std.HashMap.getElem?_insert] at hk
+  split at hk
+  · cases hk; decide +kernel
+  · simp at hk
+
+theorem Ex7.root : RootReadable Ex7.dev 16 := ⟨rfl, by decide, by decide, by decide⟩
+
+open FatVerif.FileSim FatVerif.Fat in
+theorem Ex7.geo : Geo Ex7.dev.fs Ex7.dev.img.size :=
+  ⟨by decide, by decide, by decide, by decide, by decide, by decide, by decide, by decide, by decide, by decide, by decide⟩
+
+open FatVerif.FileSim FatVerif.Fat in
+theorem Ex7.sub : ChainDir Ex7.dev (FileH.new (some 2) (some Ex3.subE.editor)) 2 [2, 3] := by
+  have h2 : tabView Ex2.fs Ex7.dev.img 2 = .data 3 := by decide +kernel
+  have h3 : tabView Ex2.fs Ex7.dev.img 3 = .eoc := by decide +kernel
+  refine ⟨rfl, Ex7.geo, rfl, ?_, by decide, by decide, Or.inl rfl, (fun e he => by cases he; rfl), by decide, by decide⟩
+  exact Chain.cons 2 3 [3] h2 (Chain.last 3 (fun n hn => by
+    have : tabView Ex7.dev.fs Ex7.dev.img 3 = .eoc := h3
+    rw [this] at hn; cases hn))
+
+open FatVerif.FileSim FatVerif.Fat in
+/-- all hypotheses of `rename_file_across_sim` hold: the run of `rename_internal(SUB, "hello.txt", root, "Moved.txt")`
+    succeeds, the FAT after the first step is unchanged, the volume is marked dirty -/
+example : ∃ (dm d' : Dev), run (renameInternal Ex3.env (.file (FileH.new (some 2) (some Ex3.subE.editor))) "hello.txt"
+      (rootAt Ex7.dev.fs 0) "Moved.txt") Ex7.dev = (.ok (), d') ∧
+    tabView dm.fs dm.img = tabView Ex7.dev.fs Ex7.dev.img ∧ d'.fs.curDirty = true := by
+  obtain ⟨dm, d', hr, _, _, _, _, hd, _, _, _, _, _, htv, _⟩ :=
+    (WView.ofSub Ex7.dev 2 Ex3.subE.editor [2, 3] Ex7.sub Ex7.wf (by decide) (by decide) (by decide) (by decide)
+      (by decide)).rename_file_across_sim
+    (WView.ofRoot (rootSliceOf Ex7.dev.fs) 16 Ex7.root.slots rfl rfl (by decide) Ex7.dev rfl Ex7.root.inside Ex7.wf
+      Ex7.root.fuel)
+    Ex3.env "hello.txt" "Moved.txt" (by decide) (by decide +kernel) rfl Ex7.geo Ex7.hello (by decide +kernel)
+    (by decide +kernel) [77, 79, 86, 69, 68, 32, 32, 32, 84, 88, 84] (by decide +kernel) (by decide +kernel)
+    (fun d2 d3 hi hs hc htv => SubInv.of_volStep hi hs hc htv) (by decide) (fun q hq => hq.elim)
+  exact ⟨dm, d', hr, htv, hd⟩
+
+/-! ## WRITES: `rename` of a directory inside one directory (Proofs/DirWriteSim32–34)
+
+`rename_internal` for a directory first climbs from the destination directory through the `..` entries to the root
+(`ancestorWalk_sim` along `Climbs`: the moved directory must not be met), then writes the new entry, deletes the old one,
+and looks up `..` in the moved directory through its NEW entry (`fixDotDot_same`: the parent stays, nothing is written;
+`fixDotDot_move`: the record of `..` is rewritten raw). Generic: `WView.rename_dir_sim`.
+
+Non-vacuity: renaming the empty directory `SUB` of `Ex6` (fixed root) to "Sub two". -/
+
+open FatVerif.FileSim FatVerif.Fat in
+example : ∃ d' : Dev, run (renameInternal Ex3.env (rootAt Ex6.dev.fs 0) "sub" (rootAt Ex6.dev.fs 0) "Sub two") Ex6.dev
+      = (.ok (), d') ∧ d'.fs.curDirty = true ∧ tabView d'.fs d'.img = tabView Ex6.dev.fs Ex6.dev.img := by
+  obtain ⟨d', hr, _, hd, _, _, htv⟩ :=
+    (WView.ofRoot (rootSliceOf Ex6.dev.fs) 16 Ex6.root.slots rfl rfl (by decide) Ex6.dev rfl Ex6.root.inside Ex6.wf
+      Ex6.root.fuel).rename_dir_sim Ex3.env "sub" "Sub two" (by decide) (by decide +kernel) rfl Ex6.geo Ex6.sub
+      (by decide +kernel) (by decide +kernel) 0
+      (Climbs.top (DirView.ofRoot Ex6.root) (by decide +kernel) rfl) (by decide)
+      [83, 85, 66, 84, 87, 79, 126, 49, 32, 32, 32] (by decide +kernel) (by decide +kernel) (by decide)
+      (fun q hq => hq.elim) 2 (by decide +kernel) [2] Ex6.subReadable.dir (by decide)
+      (fun i hi x hx => ⟨fun h => h, fun j hj hc => by
+        have h1 := chainSrc_ge Ex6.dev.fs [2] (32 * i)
+        have h2 : Ex6.dev.fs.firstDataSector * Ex6.dev.fs.bps = 1536 := by decide
+        have hb : (rootSliceOf Ex6.dev.fs).beginOff = 1024 := by decide
+        have hj' : j < 16 := hj
+        have hc' : (rootSliceOf Ex6.dev.fs).beginOff + 32 * j ≤ chainSrc Ex6.dev.fs [2] (32 * i) + x ∧
+            chainSrc Ex6.dev.fs [2] (32 * i) + x < (rootSliceOf Ex6.dev.fs).beginOff + 32 * j + 32 := hc
+        rw [hb] at hc'
+        omega⟩)
+      ⟨Ex6.dotdot.serialize, [], 1, 2⟩ (by decide +kernel) (by decide +kernel)
+  exact ⟨d', hr, hd, htv⟩
+
+/-! ## WRITES: moves between two directories that lie apart (Proofs/DirWriteSim31, 35, 36)
+
+`WView.rename_file_apart_sim`, `WView.rename_dir_apart_sim` (the latter rewrites the `..` record of the moved directory).
+Non-vacuity on a volume with the directories `A` (cluster 2: the file `F`, the directory `D` in cluster 4) and `B`
+(cluster 3) in the fixed root: `A/F → B/G` and `A/D → B/E`. -/
+
+section Ex8
+open FatVerif.FileSim FatVerif.Fat
+
+namespace Ex8
+def nameA : List Nat := [65, 32, 32, 32, 32, 32, 32, 32, 32, 32, 32]
+def nameB : List Nat := [66, 32, 32, 32, 32, 32, 32, 32, 32, 32, 32]
+def nameD : List Nat := [68, 32, 32, 32, 32, 32, 32, 32, 32, 32, 32]
+def nameF : List Nat := [70, 32, 32, 32, 32, 32, 32, 32, 32, 32, 32]
+def dotN : List Nat := 46 :: List.replicate 10 32
+def ddN : List Nat := 46 :: 46 :: List.replicate 9 32
+def dirRec (nm : List Nat) (c : Option Nat) : DirFileEntryData := (DirFileEntryData.new nm 0x10).setFirstCluster c .fat16
+/-- root: `A` (cluster 2), `B` (cluster 3); `A`: `.`, `..`, the file `F`, the directory `D` (cluster 4); `B`: `.`, `..`;
+    `D`: `.`, `..` (naming `A`) -/
+def bytes : List Nat :=
+  List.replicate 512 0 ++
+  ([0xF8, 0xFF, 0xFF, 0xFF, 0xFF, 0xFF, 0xFF, 0xFF, 0xFF, 0xFF] ++ List.replicate 502 0) ++
+  ((dirRec nameA (some 2)).serialize ++ (dirRec nameB (some 3)).serialize ++ List.replicate 448 0) ++
+  ((dirRec dotN (some 2)).serialize ++ (dirRec ddN none).serialize ++ (DirFileEntryData.new nameF 0x20).serialize ++
+    (dirRec nameD (some 4)).serialize ++ List.replicate 384 0) ++
+  ((dirRec dotN (some 3)).serialize ++ (dirRec ddN none).serialize ++ List.replicate 448 0) ++
+  ((dirRec dotN (some 4)).serialize ++ (dirRec ddN (some 2)).serialize ++ List.replicate 448 0) ++
+  List.replicate 1024 0
+def dev : Dev := { img := Img.ofBytes bytes 4096, fs := Ex2.fs }
+def edA : DirEntryEditor := DirEntryEditor.new (dirRec nameA (some 2)) 1024
+def edB : DirEntryEditor := DirEntryEditor.new (dirRec nameB (some 3)) 1056
+def f : LfnEntry := ⟨(DirFileEntryData.new nameF 0x20).serialize, [], 2, 3⟩
+def dE : LfnEntry := ⟨(dirRec nameD (some 4)).serialize, [], 3, 4⟩
+end Ex8
+
+theorem Ex8.wf : Ex8.dev.img.WF := by
+  intro k p hk
+  simp only [Ex8.dev, Img.ofBytes, Std.HashMap.getElem?_insert] at hk
+  split at hk
+  · cases hk; decide +kernel
+  · simp at hk
+
+theorem Ex8.geo : Geo Ex8.dev.fs Ex8.dev.img.size :=
+  ⟨by decide, by decide, by decide, by decide, by decide, by decide, by decide, by decide, by decide, by decide, by decide⟩
+
+theorem Ex8.root : RootReadable Ex8.dev 16 := ⟨rfl, by decide, by decide, by decide⟩
+
+/-- a one-cluster directory of `Ex8` read through a clean editor of a directory record -/
+theorem Ex8.chainDir (c : Nat) (ed : DirEntryEditor) (hc : 2 ≤ c ∧ c < 6) (htv : tabView Ex8.dev.fs Ex8.dev.img c = .eoc)
+    (hsz : ed.data.size? = none) (hcl : ed.dirty = false) : ChainDir Ex8.dev (FileH.new (some c) (some ed)) c [c] := by
+  refine ⟨rfl, Ex8.geo, rfl, Chain.last c (fun n hn => by rw [htv] at hn; cases hn), ?_, hsz, Or.inl rfl,
+    (fun e he => by cases he; exact hcl), by decide, by rw [List.length_singleton]; decide⟩
+  intro x hx
+  simp only [List.mem_singleton] at hx
+  subst hx
+  exact hc
+
+theorem Ex8.src (c i : Nat) (hi : i < 16) : chainSrc Ex8.dev.fs [c] (32 * i) = clusterOff Ex8.dev.fs c + 32 * i :=
+  chainSrc_single Ex8.dev.fs c i (by
+    have : Ex8.dev.fs.clusterSize = 512 := by decide
+    omega)
+
+theorem Ex8.off (c : Nat) : clusterOff Ex8.dev.fs c = (3 + (c - 2)) * 512 := by
+  unfold clusterOff
+  show (3 + (c - 2) * 1) * 512 = (3 + (c - 2)) * 512
+  rw [Nat.mul_one]
+
+/-- two different one-cluster directories of `Ex8`, and an own entry in the root region, lie apart -/
+theorem Ex8.apart (c c' p : Nat) (hc : 2 ≤ c) (hc' : 2 ≤ c') (hne : c ≠ c') (hp : p + 32 ≤ 1536) (i : Nat) (hi : i < 16)
+    (x : Nat) (hx : x < 32) :
+    ¬ (p ≤ chainSrc Ex8.dev.fs [c] (32 * i) + x ∧ chainSrc Ex8.dev.fs [c] (32 * i) + x < p + 32) ∧
+    ∀ j, j < 16 → ¬ (chainSrc Ex8.dev.fs [c'] (32 * j) ≤ chainSrc Ex8.dev.fs [c] (32 * i) + x ∧
+      chainSrc Ex8.dev.fs [c] (32 * i) + x < chainSrc Ex8.dev.fs [c'] (32 * j) + 32) := by
+  rw [Ex8.src c i hi, Ex8.off]
+  refine ⟨by omega, fun j hj => ?_⟩
+  rw [Ex8.src c' j hj, Ex8.off]
+  omega
+
+def Ex8.VA : WView Ex8.dev (.file (FileH.new (some 2) (some Ex8.edA))) :=
+  WView.ofSub Ex8.dev 2 Ex8.edA [2] (Ex8.chainDir 2 Ex8.edA (by decide) (by decide +kernel) (by decide) rfl) Ex8.wf
+    (by decide) (by decide) (by decide) (by decide)
+    (fun i hi => by
+      have hi' : i < 16 := hi
+      rw [Ex8.src 2 i hi', Ex8.off]
+      right; show 1024 + 32 ≤ _; omega)
+
+def Ex8.VB : WView Ex8.dev (.file (FileH.new (some 3) (some Ex8.edB))) :=
+  WView.ofSub Ex8.dev 3 Ex8.edB [3] (Ex8.chainDir 3 Ex8.edB (by decide) (by decide +kernel) (by decide) rfl) Ex8.wf
+    (by decide) (by decide) (by decide) (by decide)
+    (fun i hi => by
+      have hi' : i < 16 := hi
+      rw [Ex8.src 3 i hi', Ex8.off]
+      right; show 1056 + 32 ≤ _; omega)
+
+theorem Ex8.behind (c : Nat) (hc : 2 ≤ c) (j : Nat) (hj : j < 16) :
+    (fatSliceOf Ex8.dev.fs).beginOff + (fatSliceOf Ex8.dev.fs).size ≤ chainSrc Ex8.dev.fs [c] (32 * j) := by
+  rw [Ex8.src c j hj, Ex8.off]
+  have : (fatSliceOf Ex8.dev.fs).beginOff + (fatSliceOf Ex8.dev.fs).size = 1024 := by decide
+  omega
+
+/-- moving the file `A/F` to `B/G`: all hypotheses of `rename_file_apart_sim` hold -/
+example : ∃ d' : Dev, run (renameInternal Ex3.env (.file (FileH.new (some 2) (some Ex8.edA))) "f"
+      (.file (FileH.new (some 3) (some Ex8.edB))) "G") Ex8.dev = (.ok (), d') ∧
+    Ex8.VA.slots d'.img = DirSlots.deleteRange (Ex8.VA.slots Ex8.dev.img) 2 3 ∧
+    d'.fs.curDirty = true ∧ tabView d'.fs d'.img = tabView Ex8.dev.fs Ex8.dev.img := by
+  obtain ⟨d', hr, _, hd, _, _, h1, _, htv⟩ := Ex8.VA.rename_file_apart_sim Ex8.VB Ex3.env "f" "G" (by decide)
+    (by decide +kernel) rfl Ex8.geo Ex8.f (by decide +kernel) (by decide +kernel)
+    [71, 32, 32, 32, 32, 32, 32, 32, 32, 32, 32] (by decide +kernel) (by decide +kernel)
+    (fun d2 d3 hi hs hc htv => SubInv.of_volStep hi hs hc htv) (fun d2 d3 hi hs hc htv => SubInv.of_volStep hi hs hc htv)
+    (fun j hj => Ex8.behind 2 (by omega) j hj)
+    (fun q hq => by
+      have hq' : subExtra Ex8.edA q := hq
+      unfold subExtra at hq'
+      have : (fatSliceOf Ex8.dev.fs).beginOff + (fatSliceOf Ex8.dev.fs).size = 1024 := by decide
+      have : Ex8.edA.pos = 1024 := rfl
+      omega)
+    (fun j hj => Ex8.behind 3 (by omega) j hj)
+    (fun q hq => by
+      have hq' : subExtra Ex8.edB q := hq
+      unfold subExtra at hq'
+      have : (fatSliceOf Ex8.dev.fs).beginOff + (fatSliceOf Ex8.dev.fs).size = 1024 := by decide
+      have : Ex8.edB.pos = 1056 := rfl
+      omega)
+    (fun i hi x hx => Ex8.apart 2 3 1056 (by omega) (by omega) (by omega) (by omega) i hi x hx)
+    (fun i hi x hx => Ex8.apart 3 2 1024 (by omega) (by omega) (by omega) (by omega) i hi x hx)
+  exact ⟨d', hr, h1, hd, htv⟩
+
+/-- the `..` entry of `B` as the library reads it: it names the root -/
+def Ex8.ddB : DirEntry := toDirEntryS (chainSrc Ex8.dev.fs [3]) ⟨(Ex8.dirRec Ex8.ddN none).serialize, [], 1, 2⟩
+
+/-- the climb from `B` to the root (one step) never meets `D` (cluster 4) -/
+theorem Ex8.climb : Climbs Ex8.dev Ex3.env (some 4) (.file (FileH.new (some 3) (some Ex8.edB))) 0 1 := by
+  have hl0 : (lookupL Ex3.env.upper "..".toList (some true) (readDirEntries Ex8.dev.fs.lfnAlloc true
+      (srcSlots Ex8.dev.img (chainSrc Ex8.dev.fs [3]) ([3].length * (Ex8.dev.fs.clusterSize / 32))))).map
+        (toDirEntryS (chainSrc Ex8.dev.fs [3])) = .ok Ex8.ddB := by decide +kernel
+  have hl : Ex8.VB.toDirView.lookup Ex3.env ".." (some true) = .ok Ex8.ddB := hl0
+  have hs : DirEntry.dirStream Ex8.dev.fs Ex8.ddB = rootAt Ex8.dev.fs 0 := by decide +kernel
+  refine Climbs.up Ex8.VB.toDirView (by decide) rfl (by decide) hl ?_
+  rw [hs]
+  exact Climbs.top (DirView.ofRoot Ex8.root) (by decide) rfl
+
+/-- moving the directory `A/D` to `B/E`: all hypotheses of `rename_dir_apart_sim` hold; the `..` record of `D` (slot 1 of
+    cluster 4) is rewritten with cluster 3 -/
+example : ∃ d' : Dev, run (renameInternal Ex3.env (.file (FileH.new (some 2) (some Ex8.edA))) "d"
+      (.file (FileH.new (some 3) (some Ex8.edB))) "E") Ex8.dev = (.ok (), d') ∧
+    Ex8.VA.slots d'.img = DirSlots.deleteRange (Ex8.VA.slots Ex8.dev.img) 3 4 ∧
+    (srcSlots d'.img (chainSrc Ex8.dev.fs [4]) 16).getD 1 [] = (Ex8.dirRec Ex8.ddN (some 3)).serialize ∧
+    d'.fs.curDirty = true ∧ tabView d'.fs d'.img = tabView Ex8.dev.fs Ex8.dev.img := by
+  have hfc : (toDirEntryS Ex8.VA.src Ex8.dE).firstCluster Ex8.dev.fs = some 4 := by decide +kernel
+  have hclimb : Climbs Ex8.dev Ex3.env ((toDirEntryS Ex8.VA.src Ex8.dE).firstCluster Ex8.dev.fs)
+      (.file (FileH.new (some 3) (some Ex8.edB))) 0 1 := by rw [hfc]; exact Ex8.climb
+  obtain ⟨d', hr, _, hd, _, _, h1, _, hm, htv⟩ := Ex8.VA.rename_dir_apart_sim Ex8.VB Ex3.env "d" "E" (by decide)
+    (by decide +kernel) rfl Ex8.geo Ex8.dE (by decide +kernel) (by decide +kernel) 1 hclimb (by decide +kernel)
+    [69, 32, 32, 32, 32, 32, 32, 32, 32, 32, 32] (by decide +kernel) (by decide +kernel)
+    (fun d2 d3 hi hs hc htv => SubInv.of_volStep hi hs hc htv) (fun d2 d3 hi hs hc htv => SubInv.of_volStep hi hs hc htv)
+    (fun j hj => Ex8.behind 2 (by omega) j hj)
+    (fun q hq => by
+      have hq' : subExtra Ex8.edA q := hq
+      unfold subExtra at hq'
+      have : (fatSliceOf Ex8.dev.fs).beginOff + (fatSliceOf Ex8.dev.fs).size = 1024 := by decide
+      have : Ex8.edA.pos = 1024 := rfl
+      omega)
+    (fun j hj => Ex8.behind 3 (by omega) j hj)
+    (fun q hq => by
+      have hq' : subExtra Ex8.edB q := hq
+      unfold subExtra at hq'
+      have : (fatSliceOf Ex8.dev.fs).beginOff + (fatSliceOf Ex8.dev.fs).size = 1024 := by decide
+      have : Ex8.edB.pos = 1056 := rfl
+      omega)
+    (fun i hi x hx => Ex8.apart 2 3 1056 (by omega) (by omega) (by omega) (by omega) i hi x hx)
+    (fun i hi x hx => Ex8.apart 3 2 1024 (by omega) (by omega) (by omega) (by omega) i hi x hx)
+    4 hfc [4]
+    (Ex8.chainDir 4 _ (by decide) (by decide +kernel) (by decide +kernel) rfl) (by decide)
+    (fun i hi x hx => Ex8.apart 4 2 1024 (by omega) (by omega) (by omega) (by omega) i hi x hx)
+    (fun i hi x hx => Ex8.apart 4 3 1056 (by omega) (by omega) (by omega) (by omega) i hi x hx)
+    ⟨(Ex8.dirRec Ex8.ddN (some 2)).serialize, [], 1, 2⟩ (by decide +kernel) (by decide +kernel)
+  refine ⟨d', hr, h1, ?_, hd, htv⟩
+  have hm' : srcSlots d'.img (chainSrc Ex8.dev.fs [4]) 16 = _ := hm
+  rw [hm']
+  decide +kernel
+
+
+end Ex8
 
 end FatVerif.DirSim
